@@ -6587,6 +6587,13 @@ fn regular_serialize_vec<T: Serialize>(
     let l = items.len();
     serializer.write_usize(l)?;
     if std::mem::size_of::<T>() == 0 {
+        // A type can be zero-sized in memory and still have a non-empty
+        // serialized form (single-variant enums, Canary1, structs holding only
+        // removed fields). The reader deserializes every element, so every
+        // element must be written.
+        for item in items {
+            item.serialize(serializer)?;
+        }
         return Ok(());
     }
 
